@@ -4,7 +4,7 @@ Rec == ndJsonDeserialize(IOEnv.TRACE)
 ToSet(s) == {s[i] : i \in DOMAIN s}
 VARIABLES l, mon, mode, bad
 tvars == <<l, mon, mode, bad>>
-Dummy == [shape |-> "fork", trk |-> {}, snd |-> {}, send |-> FALSE, send2 |-> FALSE]
+Dummy == [shape |-> "fork", trk |-> {}, snd |-> {}, send |-> FALSE, send2 |-> FALSE, persistB |-> FALSE]
 TInit == l = 1 /\ mon = [sc |-> Dummy] /\ mode = "skip" /\ bad = <<>>
 TNext ==
   /\ l <= Len(Rec)
